@@ -75,6 +75,9 @@ func c05Run(c *Ctx) {
 		return
 	}
 	harness.LogDefault()
+	// every run starts from empty pools, so that a run is a function of (seed, run index) and of
+	// nothing an earlier run in the same worker left behind
+	harness.GCPoint()
 	// solo results (world A only): each operation alone on pristine state
 	var solo [][]*harness.Result
 	if !harness.RaceBuild {
@@ -154,8 +157,9 @@ func init() {
 		Rule: "a run is non-trivial when at least one task switch happened between two device events of different tasks (operations overlapped); " +
 			"distinct = distinct run digests, which fold the schedule digest (sequence of running task ids), every operation's entry point and, in world A, its canonical result",
 		QuickSec: 90, ThoroughSec: 900,
-		Race:  true,
-		Setup: func(repo, tier string) error { return LoadSamples(repo) },
+		Race:     true,
+		HangKind: "stall",
+		Setup:    func(repo, tier string) error { return LoadSamples(repo) },
 		Assumptions: []string{
 			"interleavings are explored at device-event granularity (every Read/Seek/ReadAt, actor entry/exit); code between two device events is atomic in simulation; torn or reordered accesses are left to the happens-before detector",
 			"world A (plain build, GOMAXPROCS=1) judges results against solo runs on pristine state; world B (-race build, GOMAXPROCS 1/4/16 by worker) judges only the race detector and fatal errors, because the race build's sync.Pool drops Puts at random",
